@@ -2015,10 +2015,12 @@ func (n *node) registerEvent(
 		event.last = lib.NewQueueLimitMPSC(int64(options.Buffer), true)
 	}
 
+	// the token must be there when the event becomes reachable: a publication
+	// with the zero token would pass the check otherwise
+	event.token = n.MakeRef()
 	if _, exist := n.events.LoadOrStore(ev, event); exist {
 		return token, gen.ErrTaken
 	}
-	event.token = n.MakeRef()
 	return event.token, nil
 }
 
